@@ -21,7 +21,7 @@ def observe(res, var='X'):
 
 def run_goal(w, goal, var='X', timeout=None):
     try:
-        return observe(w.run(goal, limit=5, timeout=timeout), var)
+        return observe(w.run(goal, limit=5, timeout=timeout, only_r=(var == 'R')), var)
     except WorkerDied as e:
         return ('died', {'status': e.status})
     except WorkerTimeout:
